@@ -165,6 +165,38 @@ CHECKS = {
              'accepted sets). One known finding (dependency ignored).',
         design_ref='DESIGN.md §5 C08, §10.2',
         note='Failure-local reading of the calculus (pathProd) is a specification choice, see DESIGN §10.2; execution clause rests on C03.'),
+    'C03': dict(
+        technique='Lean 4 proof (soundness of the calculus for the shape of exact final values: store invariant carried through symbolic execution, closure fixed point) + Lean symbolic execution as oracle on the real bounds',
+        text='Proved (exec_respects_derivation): for every constant-free command, every choice vector at which the pointwise '
+             'calculus derives a matrix M, and every terminating execution (any branch outcomes, any loop counts), the exact '
+             'final value of every variable, as a polynomial in the inputs, has the shape its column of M prescribes: only '
+             'listed variables, a max-listed variable only as one summand with coefficient one, at most one such summand, '
+             'never next to a weak-listed variable. This is about the calculus; it reaches the code through C01 (reported '
+             'matrices = derivable matrices) and, every run, directly: the real strict-mode bounds for EVERY valid choice are '
+             'checked against exact symbolic executions computed in Lean along enumerated / sampled paths; counted-loop '
+             'recognition is checked on guards written in the body.',
+        design_ref='DESIGN.md §5 C03',
+        note='Shape (the property sentence) rather than numeric Jones-Kristiansen soundness; values are exact polynomials over naturals.'),
+    'C06': dict(
+        technique='Lean 4 proof (totality of model components) + crash search on the real code over a mixed grammar, model agreement on raising',
+        text='Partial: proved on the model that loop discovery, variable collection, the delta graph (any history), choice '
+             'generation (well-formed input), the two loop corrections (under the graph invariant) and the analysis of every '
+             'loop-free supported statement never raise. Not proved: termination of the syntactic fixpoint (fuelled in the '
+             'model) and running time. Every run analyses pycparser-accepted files from the mixed grammar (supported, sugar, '
+             'edge forms, every unsupported kind) in function and loop mode x strict x fin with the real code under a time '
+             'limit, requires a JSON-serialisable result with every function present, and compares raising with the model.',
+        design_ref='DESIGN.md §5 C06',
+        note='Timeouts are reported as exit 2, never as violations; fixpoint termination bound not proved.'),
+    'C13': dict(
+        technique='Lean 4 proof (write-set lemmas: what the in-place corrections can ever modify; diagonal lemma for fixpoints) + session / hash-seed exploration of the real process',
+        text='Partial: proved at value level what makes Python aliasing harmless: the while correction only rewrites '
+             'monomials whose scalar is p (or w on the diagonal), the for correction only diagonal monomials other than m, '
+             'and diagonal cells of a fixpoint result hold no 0-monomial, so no write can land on a monomial carrying the '
+             'scalar of the shared zero / unit polynomial. Object identity, set ordering and the process are explored: random '
+             'histories of analyses (function / loop mode, fin) in one process vs fresh interpreters, multi-function files, '
+             'PYTHONHASHSEED 1..n, snapshots of matrix.ZERO/UNIT and of the caller tree after every analysis.',
+        design_ref='DESIGN.md §5 C13',
+        note='CPython aliasing and hash ordering are runtime behaviour: explored, not proved.'),
 }
 
 NOT_YET = {}
